@@ -67,8 +67,10 @@ Spec == Init /\ [][Step \/ Done]_vars /\ WF_vars(Step)
 Emit == status # "run" => PrintT("CASE " \o ToJson([files |-> content, entry |-> entry, status |-> status, opens |-> opens, defined |-> defined, loaded |-> loaded]))
 \* --- U1 ---
 Terminates == <>(status # "run")
-\* a file is on the stack at most once per role: the recursion is bounded by the number of files
-StackBounded == Len(stack) <= 2 * Cardinality(Files) + 1
+\* the recursion is bounded by the number of files: every file is being loaded at most once (NoDoubleLoad), and between two loads
+\* every file is being included at most once
+StackBounded == Len(stack) <= 1 + Cardinality(Files) * (Cardinality(Files) + 1)
+NoDoubleInclude == \A i, j \in 1..Len(stack) : (i < j /\ ~stack[i].own /\ ~stack[j].own /\ stack[i].f = stack[j].f) => \E k \in (i + 1)..(j - 1) : stack[k].own
 NoDoubleLoad == \A i, j \in 1..Len(stack) : (i # j /\ stack[i].own /\ stack[j].own) => stack[i].f # stack[j].f
 \* nothing becomes visible while an error unwinds, and the files whose load failed are forgotten
 ErrorKeeps == [][status' = "error" => (defined' = defined /\ loaded' \subseteq loaded)]_vars
